@@ -99,7 +99,7 @@ EXPORT errno_t _strset_s_chk(char *restrict dest, rsize_t dmax, int value,
     }
 #ifdef SAFECLIB_STR_NULL_SLACK
     /* null slack to clear any data */
-    if (!*dest)
+    if (dmax && !*dest)
         memset(dest, 0, dmax);
 #endif
 
